@@ -93,3 +93,51 @@ func OnFreshStack(f func()) {
 		panic(p) // re-raised on the calling goroutine, where the harness catches it
 	}
 }
+
+// PtrRec is an element with a scalar, a string and a pointer (redundant, so that a recycled or torn value shows).
+type PtrRec struct {
+	A int
+	S string
+	P *int
+}
+
+// MkPtrRec / OkPtrRec build and verify the element for the number v.
+func MkPtrRec(v int) PtrRec {
+	x := ^v
+	return PtrRec{A: v, S: fmt.Sprint(v, "#", v*7), P: &x}
+}
+
+func OkPtrRec(r PtrRec, v int) bool {
+	return r.A == v && r.S == fmt.Sprint(v, "#", v*7) && r.P != nil && *r.P == ^v
+}
+
+var churnSink [][]byte
+
+// AcrossGC fills a container with n freshly allocated pointer-carrying elements that nothing but the
+// container references, forces two collections, churns the allocator with other content of the same sizes,
+// and then takes every element out again and verifies it; several rounds on the same container.
+func AcrossGC(what string, n, rounds int, put func(PtrRec) bool, take func() (PtrRec, bool)) error {
+	for round := 0; round < rounds; round++ {
+		base := 1000000*(round+1) + n
+		for i := 0; i < n; i++ {
+			if !put(MkPtrRec(base + i)) {
+				return fmt.Errorf("%s: element %d of %d was not accepted", what, i, n)
+			}
+		}
+		runtime.GC()
+		runtime.GC()
+		for i := 0; i < 4*n+64; i++ {
+			x := new(int)
+			*x = -1 - i
+			churnSink = append(churnSink, []byte(fmt.Sprint(-1-i, "#garbage", *x)))
+		}
+		churnSink = churnSink[:0]
+		for i := 0; i < n; i++ {
+			v, got := take()
+			if !got || !OkPtrRec(v, base+i) {
+				return fmt.Errorf("%s, round %d: element %d of %d - put in before two garbage collections and referenced by the container alone - came back as {A:%d S:%.40q P:%v} ok=%v; it was put in as the element for %d", what, round, i, n, v.A, v.S, v.P, got, base+i)
+			}
+		}
+	}
+	return nil
+}
